@@ -39,6 +39,10 @@ pub struct Res {
     pub ok: bool,
     pub n: usize,
     pub ph: [Ph; MAXPH],
+    /// byte offset just after the closing brace of the first placeholder (0 if there is none)
+    pub first_end: usize,
+    /// byte offset of the opening brace of the first placeholder
+    pub first_start: usize,
 }
 
 struct P<'a> {
@@ -290,10 +294,11 @@ impl<'a> P<'a> {
 }
 
 pub fn reference(s: &[u8]) -> Res {
-    let mut r = Res { ok: false, n: 0, ph: [PH0; MAXPH] };
+    let mut r = Res { ok: false, n: 0, ph: [PH0; MAXPH], first_end: 0, first_start: 0 };
     let mut p = P { s, i: 0, err: false, curarg: 0 };
     while let Some((c, w)) = p.peek() {
         if c == '{' {
+            let open = p.i;
             p.i += w;
             if p.consume('{') {
                 continue;
@@ -309,6 +314,10 @@ pub fn reference(s: &[u8]) -> Res {
             }
             if r.n < MAXPH {
                 r.ph[r.n] = ph;
+            }
+            if r.n == 0 {
+                r.first_start = open;
+                r.first_end = p.i;
             }
             r.n += 1;
         } else if c == '}' {
